@@ -21,9 +21,16 @@ structure Inv (s : State) : Prop where
 def GuardCodeOk : Prop :=
   bondChecksProposal = true ∧ bondChecksOracle = true ∧ bondChecksBridger = true ∧ bondChecksExt = true ∧
   bondChecksBelow = true ∧ bondChecksAbove = true ∧ editChecksBridger = true ∧
-  addChecksProposal = true ∧ addChecksBelow = true ∧ addChecksAbove = true ∧ addChecksSlashPaid = true
+  addChecksProposal = true ∧ addChecksBelow = true ∧ addChecksAbove = true ∧ addChecksSlashPaid = true ∧
+  -- re-activation: back online, start height reset (only) for an oracle that was offline, penalty counter cleared
+  addSetsOnline = true ∧ addSetsStartHeight = true ∧ addStartHeightOnlyWhenOffline = true ∧ addResetsSlashTimes = true
 
 instance : Decidable GuardCodeOk := by unfold GuardCodeOk; infer_instance
+
+theorem reactivate_eq (hc : GuardCodeOk) (h : Nat) (r : Oracle) :
+    reactivate h r = { r with online := true, startHeight := (if r.online then r.startHeight else h), slashTimes := 0 } := by
+  obtain ⟨_, _, _, _, _, _, _, _, _, _, _, r1, r2, r3, r4⟩ := hc
+  simp [reactivate, r1, r2, r3, r4]
 
 /-- records mapped by a function that keeps the key fields and `RecOk`; indexes untouched -/
 theorem inv_mapVals (s t : State) (g : Oracle → Oracle) (hi : Inv s)
@@ -195,9 +202,10 @@ theorem gov_inv (s : State) (l : List Nat) (hi : Inv s) : Inv (govUpdate s l).1 
           · exact ho
 
 theorem add_inv (hc : GuardCodeOk) (s : State) (o amt : Nat) (hi : Inv s) : Inv (addDelegate s o amt).1 := by
-  obtain ⟨_, _, _, _, _, _, _, a1, a2, a3, a4⟩ := hc
+  have hre := reactivate_eq hc
+  obtain ⟨_, _, _, _, _, _, _, a1, a2, a3, a4, _⟩ := hc
   unfold addDelegate
-  simp only [a1, a2, a3, a4, Bool.true_and]
+  simp only [a1, a2, a3, a4, Bool.true_and, hre]
   split
   · exact hi
   · split
